@@ -1,4 +1,4 @@
-import DcmVerif.Proofs.Total
+import DcmVerif.Proofs.Chains
 import DcmVerif.Proofs.Ext
 /-! Property theorems for C07. Statements only; proofs are by reference to `Proofs/`. -/
 set_option autoImplicit false
@@ -113,5 +113,15 @@ theorem convert_valid (null : α) (S T V : Nat) (hS : 0 < S) (hT : 2 ≤ T)
         ((List.range V).map vec) = .ok r) :
     ValidK ⟨5, S, T, V, true, true, true⟩ r :=
   Total.convert_valid null S T V hS hT val vol vec r hvol hvec hfin
+
+/-- **closure under chains of splits (one key):** from a valid key of a consistent shape (vector
+    axis, if any, with ≥ 2 components), every applicable sequence of slice / time / vector subsets
+    of any length runs through without an error and ends in a valid key of a consistent shape.
+    `runOps` returns `none` only when a step does not apply (axis absent, index out of range). -/
+theorem split_chain_valid (null : α) (ops : List Chain.SubOp) (sh : Shp) (ks : KeyState α)
+    (hg : Chain.Good sh) (hv : ValidK sh ks) (sh' : Shp) (res : Except Err (KeyState α))
+    (h : Chain.runOps null sh ks ops = some (sh', res)) :
+    Chain.Good sh' ∧ ∃ ks', res = .ok ks' ∧ ValidK sh' ks' :=
+  Chain.chain_valid null ops sh ks hg hv sh' res h
 
 end C07
